@@ -158,7 +158,12 @@ From FV Require Import %sCodec.Bodies Parser.ReqWire Parser.ReqRecords Parser.Re
         ("during Params: an AbortRequest for the request in progress is consumed entirely, exactly one "
          "EndRequest(RequestComplete, 0, id) is emitted and the parser is back at Header (no request is produced, so no handler can "
          "be invoked for it); an abort for any other id is skipped without reply", "abort_in_params", "C11_abort_in_params"),
-        ("later: a handler read returns ConnectionAborted exactly when the parser stands at an AbortRequest header of this request", "poll_input_aborted", "C11_read_fails_with_aborted"),
+        ("later: a handler read that returns ConnectionAborted does so because the parser stands at an AbortRequest header of this "
+         "request — and Request.aborted is then set — or because a flush of parser replies failed with a transport error of that very "
+         "kind (flag untouched: finding F4, the two are told apart by the flag)", "poll_input_aborted", "C11_read_fails_with_aborted"),
+        ("on a transport without write faults: ConnectionAborted exactly for the parser's AbortRequest, flag set", "poll_input_aborted_no_fault", "C11_read_fails_with_aborted_no_fault"),
+        ("Request.aborted is set only by a read that returns the parser's AbortRequest", "poll_input_sets_aborted", "C11_aborted_flag_source"),
+        ("... and nothing a handler does clears it", "run_handler_raborted_mono", "C11_aborted_flag_sticky"),
         ("the error repeats: every later read reports it again (or the error of a failing flush), never touches the transport's read "
          "side, never suspends for good", "await_input_sticky", "C11_abort_sticky"),
         ("input delivered before the error is a prefix of what the client sent (the conservation law of one poll; for errors "
